@@ -639,8 +639,8 @@ pub fn property() -> Property {
                modified field is non-default in the base value; distinct by (field, base id).",
         assumptions: &["harness SHA-256 anchored on FIPS vectors; reference encoder anchored on the repository vectors (C01 vectors sub-check)"],
         subs: vec![
-            Sub { name: "tx_ids", kind: Kind::Tape { max_len: 3000, quick: 20_000, thorough: 400_000, f: tx_ids } },
-            Sub { name: "headers", kind: Kind::Tape { max_len: 2000, quick: 20_000, thorough: 400_000, f: headers } },
+            Sub { name: "tx_ids", kind: Kind::Tape { max_len: 3000, quick: 80_000, thorough: 1_200_000, f: tx_ids } },
+            Sub { name: "headers", kind: Kind::Tape { max_len: 2000, quick: 80_000, thorough: 1_200_000, f: headers } },
         ],
         known: vec![],
     }
